@@ -9,6 +9,7 @@
 #include "iora/core/logger.hpp"
 #include "iora/parsers/json.hpp"
 #include <condition_variable>
+#include <cstdio>
 #include <fstream>
 #include <mutex>
 #include <set>
@@ -227,17 +228,36 @@ private:
   {
     try
     {
-      std::ofstream file(_filename);
-      if (file)
+      // Write a temporary file and rename it over the store file: opening the
+      // store file itself truncates it, so a crash before the new contents were
+      // written would leave an empty or torn file and the next start would
+      // silently begin with an empty store.
+      const std::string tempName = _filename + ".tmp";
+      std::string jsonData = _store.dump(2);
+      bool written = false;
       {
-        std::string jsonData = _store.dump(2);
-        file << jsonData;
-        iora::core::Logger::debug("JsonFileStore: Wrote " + std::to_string(jsonData.length()) +
-                                  " bytes to " + _filename);
+        std::ofstream file(tempName, std::ios::trunc);
+        if (file)
+        {
+          file << jsonData;
+          file.flush();
+          written = file.good();
+        }
+      }
+      if (!written)
+      {
+        std::remove(tempName.c_str());
+        iora::core::Logger::error("JsonFileStore: Failed to write " + tempName);
+      }
+      else if (std::rename(tempName.c_str(), _filename.c_str()) != 0)
+      {
+        std::remove(tempName.c_str());
+        iora::core::Logger::error("JsonFileStore: Failed to replace " + _filename);
       }
       else
       {
-        iora::core::Logger::error("JsonFileStore: Failed to open " + _filename + " for writing");
+        iora::core::Logger::debug("JsonFileStore: Wrote " + std::to_string(jsonData.length()) +
+                                  " bytes to " + _filename);
       }
     }
     catch (const std::exception &e)
